@@ -335,10 +335,12 @@ def check_property(prop, tier):
         print("KNOWN-FINDING: property=%s %s" % (prop, k.get("what", k.get("id"))))
 
     # partial functions are never counted, neither as obligations nor as discharged
+    # bounded (Kani with an unwinding bound) obligations are reported separately and are neither proof obligations nor
+    # discharged ones: `obligations` / `discharged` count what the deductive back ends decide without a bound
     n_partial = sum(1 for v in obligations.values() if v == "partial")
-    n_ob = len(obligations) - n_partial
-    n_ok = sum(1 for v in obligations.values() if v in ("ok", "fails-in-other-class"))
     n_bounded = sum(1 for v in obligations.values() if v == "ok-bounded")
+    n_ob = len(obligations) - n_partial - n_bounded
+    n_ok = sum(1 for v in obligations.values() if v in ("ok", "fails-in-other-class"))
     samples = []
     for u in units:
         r = results[u]
